@@ -348,7 +348,7 @@ func (s c11Scenario) detectBound() time.Duration {
 	switch s.Beh.Kind {
 	case "stallSelect":
 		return c11T6
-	case "noSelect":
+	case "noSelect", "selectStatus1Hold":
 		return c11T7
 	case "stallMidFrame":
 		return c11T8 + c11T6
@@ -390,7 +390,7 @@ func c11Scenarios(c *Ctx) []c11Scenario {
 		// timer-covered stalls and rejection
 		kinds := []string{"stallMidFrame", "stallLinktest", "stallRead"}
 		if role == "active" {
-			kinds = append(kinds, "stallSelect", "rejectSelect")
+			kinds = append(kinds, "stallSelect", "rejectSelect", "selectStatus1Hold")
 		} else {
 			kinds = append(kinds, "noSelect")
 		}
@@ -714,6 +714,8 @@ func c11ModelScript(s c11Scenario) (string, int) {
 			add("envDown")
 		case s.Beh.Kind == "noSelect":
 			add("envAccept", "envT7")
+		case s.Beh.Kind == "selectStatus1Hold":
+			add("envT7")
 		default: // select-phase failures: NotSelected
 			if role == "passive" {
 				add("envAccept")
